@@ -75,6 +75,7 @@ pub struct Batch {
     pub failures: Vec<Failure>,
     pub samples: Vec<String>,
     pub distinct: std::collections::BTreeSet<u64>,
+    pub pending: usize,
 }
 pub struct Failure {
     pub facet: String,
@@ -191,14 +192,22 @@ pub fn run_batch(ctx: &Ctx, seqs: Vec<Seq>, opts_of: impl Fn(&Seq) -> RunOpts + 
                     b.samples.push(seq.text());
                 }
                 let relevant: Vec<Diff> = out.diffs.iter().filter(|d| facets.contains(&d.facet)).cloned().collect();
-                if !relevant.is_empty() && b.failures.len() < 3 {
+                if !relevant.is_empty() && b.failures.len() + b.pending < 3 {
+                    b.pending += 1;
                     drop(b);
-                    let facet = relevant[0].facet;
+                    // prefer a facet judged by an implementation-side oracle: it is a concrete failing input
+                    let facet = ["oracle", "decoder", "sync-oracle", "trace", "api", "open", "inv", "bytes"]
+                        .iter()
+                        .find(|f| relevant.iter().any(|d| d.facet == **f))
+                        .copied()
+                        .unwrap_or(relevant[0].facet);
+                    let relevant: Vec<Diff> = relevant.iter().filter(|d| d.facet == facet).cloned().collect();
                     let small = shrink(ctx, seq, facet, &format!("{}_shr", tag), &opts);
                     let out2 = run_fresh(ctx, &small, &format!("{}_shr2", tag), &opts);
                     let d2: Vec<Diff> = out2.diffs.iter().filter(|d| d.facet == facet).cloned().collect();
                     let path = write_replay(ctx, &small, facet, if d2.is_empty() { &relevant } else { &d2 }, "");
                     let mut b = batch.lock().unwrap();
+                    b.pending -= 1;
                     b.failures.push(Failure {
                         facet: facet.to_string(),
                         replay: path,
@@ -244,7 +253,7 @@ pub fn batch_json(ctx: &Ctx, scenario: &str, b: &Batch, extra: Vec<(&str, String
 }
 
 fn facets_arg(ctx: &Ctx) -> Vec<String> {
-    ctx.args.get("facets").map(|s| s.split(',').map(|x| x.to_string()).collect()).unwrap_or_else(|| vec!["api".into(), "bytes".into(), "oracle".into(), "open".into(), "inv".into()])
+    ctx.args.get("facets").map(|s| s.split(',').map(|x| x.to_string()).collect()).unwrap_or_else(|| vec!["api".into(), "bytes".into(), "oracle".into(), "open".into(), "inv".into(), "decoder".into()])
 }
 
 /// generic random histories on one map
@@ -267,7 +276,8 @@ fn scen_hist(ctx: &Ctx) -> i32 {
     let facets = facets_arg(ctx);
     let fr: Vec<&str> = facets.iter().map(|s| s.as_str()).collect();
     let check_inv = ctx.args.contains_key("check-inv");
-    let b = run_batch(ctx, seqs, |_| RunOpts { cmp_every, check_inv, ..Default::default() }, &fr, "hist");
+    let decoder = ctx.args.contains_key("decoder");
+    let b = run_batch(ctx, seqs, |_| RunOpts { cmp_every, check_inv, decoder, ..Default::default() }, &fr, "hist");
     println!("{}", batch_json(ctx, "hist", &b, vec![]));
     if b.failures.is_empty() { 0 } else { 1 }
 }
